@@ -156,9 +156,154 @@ func (t *valTr) vblock(stmts []ast.Stmt, ind string) string {
 	return "none"
 }
 
+// ---- CashLetter.Validate: `Option (ErrClass × String)` ----
+
+type clvTr struct {
+	buildTr
+}
+
+func (t *clvTr) cond(e ast.Expr) (string, bool) {
+	switch x := e.(type) {
+	case *ast.ParenExpr:
+		return t.cond(x.X)
+	case *ast.BinaryExpr:
+		if x.Op == token.EQL || x.Op == token.NEQ {
+			// a string member against a literal
+			if bl, ok := x.Y.(*ast.BasicLit); ok && bl.Kind == token.STRING {
+				if a, ok := t.sexpr(x.X); ok {
+					lit, _ := strconv.Unquote(bl.Value)
+					c := "(" + a + " == " + leanBytes(lit) + ")"
+					if x.Op == token.NEQ {
+						c = "(!" + c + ")"
+					}
+					return c, true
+				}
+			}
+			// a slice against nil: nothing has been appended
+			if src(x.Y) == "nil" {
+				if ls, lt := t.expr(x.X); lt != nil && lt.k == "list" {
+					if x.Op == token.NEQ {
+						return "(!" + ls + ".isEmpty)", true
+					}
+					return ls + ".isEmpty", true
+				}
+			}
+		}
+	}
+	c, ty := t.iexpr(e)
+	if ty != nil && ty.k == "bool" {
+		return c, true
+	}
+	return "", false
+}
+
+func clErrorField(e ast.Expr) (string, bool) { return cashLetterErrorField(e) }
+
+func (t *clvTr) block(stmts []ast.Stmt, ind string) string {
+	if len(stmts) == 0 {
+		t.bad("clvalidate: falls off its end")
+		return "none"
+	}
+	rest := func() string { return t.block(stmts[1:], ind) }
+	switch s := stmts[0].(type) {
+	case *ast.ReturnStmt:
+		if len(s.Results) == 1 {
+			if src(s.Results[0]) == "nil" {
+				return "none"
+			}
+			if f, ok := clErrorField(s.Results[0]); ok {
+				return "some (ErrClass.cashLetter, " + leanStr(f) + ")"
+			}
+			if c, ok := s.Results[0].(*ast.CallExpr); ok && src(c.Fun) == "errors.New" && len(c.Args) == 1 {
+				if bl, ok := c.Args[0].(*ast.BasicLit); ok && bl.Kind == token.STRING {
+					msg, _ := strconv.Unquote(bl.Value)
+					return "some (ErrClass.plain, " + leanStr(msg) + ")"
+				}
+			}
+		}
+	case *ast.IfStmt:
+		if c := errGuard(s); c != nil {
+			if v, ok := t.validateCall(c); ok {
+				return "match " + v + " with\n" + ind + "| some e => some e\n" + ind + "| none =>\n" + ind + rest()
+			}
+		}
+		if s.Init == nil && s.Else == nil {
+			if cond, ok := t.cond(s.Cond); ok {
+				body := s.Body.List
+				if n := len(body); n > 0 {
+					if _, isRet := body[n-1].(*ast.ReturnStmt); isRet {
+						return "if " + cond + " then (" + t.block(body, ind+"  ") + ") else\n" + ind + rest()
+					}
+					// a block that falls through
+					return "if " + cond + " then (\n" + ind + "  " + t.block(append(append([]ast.Stmt{}, body...), stmts[1:]...), ind+"  ") + ")\n" + ind + "else (\n" + ind + "  " + t.block(stmts[1:], ind+"  ") + ")"
+				}
+			}
+		}
+	case *ast.SwitchStmt:
+		// `switch <string member> { case "a", "b": A; default: B }` with bodies that fall through to what follows
+		if s.Init == nil && s.Tag != nil {
+			if a, ok := t.sexpr(s.Tag); ok {
+				var dflt []ast.Stmt
+				type arm struct {
+					cond string
+					body []ast.Stmt
+				}
+				var arms []arm
+				okAll := true
+				for _, cs := range s.Body.List {
+					cc := cs.(*ast.CaseClause)
+					if cc.List == nil {
+						dflt = cc.Body
+						continue
+					}
+					var lits []string
+					for _, l := range cc.List {
+						bl, ok := l.(*ast.BasicLit)
+						if !ok || bl.Kind != token.STRING {
+							okAll = false
+							continue
+						}
+						v, _ := strconv.Unquote(bl.Value)
+						lits = append(lits, leanBytes(v))
+					}
+					arms = append(arms, arm{"([" + strings.Join(lits, ", ") + "].contains " + a + ")", cc.Body})
+				}
+				if okAll {
+					out := ""
+					for _, ar := range arms {
+						out += "if " + ar.cond + " then (\n" + ind + "  " + t.block(append(append([]ast.Stmt{}, ar.body...), stmts[1:]...), ind+"  ") + ")\n" + ind + "else "
+					}
+					return out + "(\n" + ind + "  " + t.block(append(append([]ast.Stmt{}, dflt...), stmts[1:]...), ind+"  ") + ")"
+				}
+			}
+		}
+	}
+	t.bad("clvalidate: statement not recognised: %s", strings.SplitN(src(stmts[0]), "\n", 2)[0])
+	return "none"
+}
+
+func emitValidateCL(p *pkgInfo) (string, bool) {
+	t := &clvTr{buildTr: buildTr{walkTr: walkTr{p: p, ok: true, env: map[string]*wty{}, calls: map[string]bool{}}, ints: map[string]bool{}, recs: map[string]string{}}}
+	d := p.methods["CashLetter"]["Validate"]
+	body := "none"
+	recv := "cl"
+	if d == nil || d.Body == nil {
+		t.bad("clvalidate: CashLetter.Validate not found")
+	} else {
+		recv = recvName(d)
+		t.recv = recv
+		t.env = map[string]*wty{recv: {k: "cl"}}
+		body = t.block(d.Body.List, "  ")
+	}
+	for _, w := range t.why {
+		fmt.Fprintf(os.Stderr, "OPAQUE clvalidate: %s\n", w)
+	}
+	return fmt.Sprintf("def cashLetterValidate (m : Model) (%s : CashLetter Vals) : Option (ErrClass × String) :=\n  %s\n\n", recv, body), t.ok
+}
+
 func emitValidate(dir string, p *pkgInfo) {
 	var sb strings.Builder
-	sb.WriteString("/- GENERATED by harness/extract from bundle.go (Bundle.Validate and the addendum-count walks) — do not edit. -/\nimport IclModel.Tree\nnamespace Icl.Gen.V\nopen Icl\n\n")
+	sb.WriteString("/- GENERATED by harness/extract from bundle.go (Bundle.Validate and the addendum-count walks) — do not edit. -/\nimport IclModel.BuildRT\nnamespace Icl.Gen.V\nopen Icl Icl.BuildRT\n\n")
 	ok := true
 	done := map[string]bool{}
 	var order []string
@@ -196,6 +341,11 @@ func emitValidate(dir string, p *pkgInfo) {
 	emit("Validate")
 	for _, n := range order {
 		sb.WriteString(defs[n])
+	}
+	cld, clok := emitValidateCL(p)
+	sb.WriteString(cld)
+	if !clok {
+		ok = false
 	}
 	fmt.Fprintf(&sb, "/-- every statement of the Go methods had a recognised shape -/\ndef recognised : Bool := %s\n\nend Icl.Gen.V\n", leanBool(ok))
 	must(os.WriteFile(filepath.Join(dir, "ValidateT.lean"), []byte(sb.String()), 0o644))
